@@ -12,9 +12,11 @@ import (
 	"fmt"
 	"reflect"
 	"sort"
+	"strings"
 
 	"gitlab.com/gomidi/midi/v2/internal/verifh/engine"
 	"gitlab.com/gomidi/midi/v2/internal/verifh/faultio"
+	"gitlab.com/gomidi/midi/v2/internal/verifh/refsmf"
 	"gitlab.com/gomidi/midi/v2/internal/verifh/smfgen"
 	sp "gitlab.com/gomidi/midi/v2/internal/verifh/smfspace"
 	"gitlab.com/gomidi/midi/v2/smf"
@@ -258,6 +260,34 @@ func main() {
 	for _, i := range idx[:10] {
 		for p := 1; p < len(files[i]); p++ {
 			inputs = append(inputs, in{files[i][:p], fmt.Sprintf("trunc%d:%s", p, names[i])})
+		}
+	}
+	// every truncation of every single-event file (sysex packets, escapes, long
+	// lengths: a cut inside any kind of payload, with every kind of reader)
+	ten := map[int]bool{}
+	for _, i := range idx[:10] {
+		ten[i] = true
+	}
+	for i, f := range files {
+		if ten[i] || !strings.HasPrefix(names[i], "1:") || len(f) > 300 {
+			continue
+		}
+		for p := 15; p < len(f); p++ {
+			if len(f) > 80 && p > 40 && p < len(f)-12 && p%16 != 0 {
+				continue // long payloads: the edges and every 16th offset
+			}
+			inputs = append(inputs, in{f[:p], fmt.Sprintf("trunc%d:%s", p, names[i])})
+		}
+	}
+	// variable-length quantities of five and six bytes (more than the format
+	// allows) as delta time and as length of a meta and of a sysex event
+	hd := refsmf.Header(0, 1, 96)
+	for ni, vl := range [][]byte{{0x81, 0x80, 0x80, 0x80, 0x00}, {0x80, 0x80, 0x80, 0x80, 0x03}, {0x8F, 0xFF, 0xFF, 0xFF, 0x7F}, {0x80, 0x80, 0x80, 0x80, 0x80, 0x03}} {
+		asDelta := append(append([]byte{}, vl...), 0x90, 0x3C, 0x40, 0x00, 0xFF, 0x2F, 0x00)
+		asMetaLen := append(append([]byte{0x00, 0xFF, 0x01}, vl...), 'a', 'b', 'c', 0x00, 0xFF, 0x2F, 0x00)
+		asSysexLen := append(append([]byte{0x00, 0xF0}, vl...), 0x01, 0x02, 0xF7, 0x00, 0xFF, 0x2F, 0x00)
+		for ki, body := range [][]byte{asDelta, asMetaLen, asSysexLen} {
+			inputs = append(inputs, in{append(append([]byte{}, hd...), refsmf.Chunk("MTrk", body)...), fmt.Sprintf("long-vlq-%d-%d", ni, ki)})
 		}
 	}
 	// inputs that are not valid files (the result must still not depend on the
